@@ -32,7 +32,7 @@ def replay_k(name, args):
     shutil.rmtree(d, ignore_errors=True)
 
 
-def run_lemmas(prop, which, functions, assumptions, explanation):
+def run_lemmas(prop, which, functions, assumptions, explanation, extra_fn=None):
   t0 = time.time()
   out = fw.Outcome(prop, 'other', t0)
   thorough = fw.tier() == 'thorough'
@@ -49,6 +49,8 @@ def run_lemmas(prop, which, functions, assumptions, explanation):
       'explanation': explanation,
       'exhaustive': True,
   })
+  if extra_fn:
+    extra_fn(out)
   out.assumptions = assumptions
   return out.finish()
 
